@@ -170,7 +170,11 @@ def generator_rules(ctx, pid, gen_rel, fun_rel, codec):
     floor = 1      # the templates may be merged or split by a refactoring of the generator: at least one must be recognised
     ctx.extra['%s_runtime_length_accesses' % pid] = n_acc
     if n_acc < floor and not any(x.rule == R2 for x in ctx.findings):
-        raise AnalysisError('%s found only %d run-time-length accesses in %s' % (R2, n_acc, gen_rel))
+        # the decode templates are not written as string constants of the format_*_inner methods (e.g. assembled by shared helper
+        # functions): this rule reads templates, it does not evaluate the generator -- recorded as undecided, never an alarm
+        ctx.instance(R2, '%s: run-time-length accesses of the decode templates' % gen_rel, 'undecided',
+                     'no decode template that uses a run-time length was recognised in the format_*_inner methods', nontrivial=False, file=gen_rel)
+        ctx.note('%s undecided: the decode templates of %s are not in a recognised shape' % (R2, gen_rel))
     # array declarations use checker.maximum
     for qual, pat in (('Generator.format_octet_string', 'uint8_t buf[{}];'), ('Generator.format_sequence_of', ' elements[{}];')):
         f = model.func(UTIL, qual)
@@ -183,32 +187,36 @@ def generator_rules(ctx, pid, gen_rel, fun_rel, codec):
         if not ok:
             ctx.violation(R2, UTIL, f, Model.qual(f), 'the C array must be declared with exactly checker.maximum elements (the emitted bounds check compares with the same value)', stmt='array size')
 
-    # ---- R3 template pairing
+    # ---- R3 template pairing: along every path of a two-sided format method, the helper kinds appended to the encode lines match
+    #      those appended to the decode lines (one-sided helpers contribute to the side their result goes to)
     n3 = 0
+    from .. import sem as _sem
+    gres = _sem.class_resolver(g)
     for name, f in sorted(g.methods.items()):
         if not (name.startswith('format_') and name.endswith('_inner')) or name in ('format_type_inner', 'format_user_type_inner', 'format_null_inner'):
             continue
         consts = cgen.classify_constants(f)
         kinds = cgen.helper_kinds(consts)
+        if not cgen.returns_pair(f):
+            ctx.instance(R3, '%s enc{%s} dec{%s}' % (Model.qual(f), ','.join(sorted(kinds['enc'])), ','.join(sorted(kinds['dec']))), 'one-sided helper',
+                         'its templates are paired where its result is used', nontrivial=False, node=f, file=gen_rel)
+            continue
         n3 += 1
-        prob = cgen.pairing_problem(kinds)
-        # per-branch
-        bprob = None
-        for cond, bconsts in cgen.branches_of(f):
-            bk = cgen.helper_kinds(bconsts)
-            p = cgen.pairing_problem(bk)
-            if p and (bk['enc'] or bk['dec']):
-                bprob = (cond, p)
-                break
+        probs = cgen.path_pairing(f, gres)
+        if probs is None:
+            # too many paths: the function as a whole
+            prob = cgen.pairing_problem(kinds)
+            probs = [('any path', prob)] if prob else []
         empty = not kinds['enc'] and not kinds['dec']
-        ok = prob is None and bprob is None
+        ok = not probs
         ctx.instance(R3, '%s enc{%s} dec{%s}' % (Model.qual(f), ','.join(sorted(kinds['enc'])), ','.join(sorted(kinds['dec']))),
                      ('paired' if not empty else 'emits nothing') if ok else 'VIOLATION', node=f, file=gen_rel)
         if not ok:
+            cond, prob = probs[0]
             ctx.violation(R3, gen_rel, f, Model.qual(f),
                           'encode and decode templates use different helper kinds%s: %s -- the generated decoder does not read what the generated encoder writes'
-                          % ((' in the branch `%s`' % bprob[0]) if bprob else '', bprob[1] if bprob else prob), stmt='template pairing')
-    if n3 < 8:
+                          % ((' on the path `%s`' % cond[:200]) if cond not in ('always', 'any path') else '', prob), stmt='template pairing')
+    if n3 < 6:
         raise AnalysisError('%s compared only %d generator methods' % (R3, n3))
 
     # ---- R4 closure: every helper named in a template is in the registry
@@ -222,66 +230,81 @@ def generator_rules(ctx, pid, gen_rel, fun_rel, codec):
             ctx.violation(R4, gen_rel, node, '%s::template helper %s' % (gen_rel, nm), 'the generated code calls %s(), which has no (pattern, definition) entry in the helper registry: it would not be emitted' % nm,
                           stmt='unregistered helper ' + nm)
 
-    # ---- R5 reject, don't mis-translate
-    chains = {}
+    # ---- R5 reject, don't mis-translate (decided on the path summaries of the four dispatching methods)
+    summ = {}
     for mn in ('format_type', 'format_type_inner', 'generate_type_declaration_process', 'generate_definition_inner_process'):
         f = g.methods.get(mn)
         if f is None:
             raise AnalysisError('%s.%s vanished' % (gen_rel, mn))
-        chains[mn] = cgen.isinstance_chain(f, codec)
-    sets = {mn: {c for c, _b in ch if c not in ('ELSE', 'USER')} for mn, ch in chains.items()}
-    ref = sets['format_type']
-    for mn, s in sets.items():
-        ok = s == ref
-        ctx.instance(R5, '%s.%s handles %s' % (gen_rel, mn, sorted(s)), 'same set' if ok else 'VIOLATION', node=g.methods[mn], file=gen_rel)
+        summ[mn] = cgen.dispatch_summary(f, g)
+        if summ[mn] is None:
+            ctx.instance(R5, '%s.%s' % (gen_rel, mn), 'undecided', 'too many paths', nontrivial=False, node=f, file=gen_rel)
+    sets = {mn: set().union(*[e[0] for e in sm]) if sm else set() for mn, sm in summ.items() if sm is not None}
+    if 'format_type' in sets and not sets['format_type']:
+        raise AnalysisError('%s.format_type: no isinstance dispatch found' % gen_rel)
+    ref = sets.get('format_type', set())
+    for mn, s_ in sorted(sets.items()):
+        ok = s_ == ref
+        ctx.instance(R5, '%s.%s handles %s' % (gen_rel, mn, sorted(s_)), 'same set' if ok else 'VIOLATION', node=g.methods[mn], file=gen_rel)
         if not ok:
             ctx.violation(R5, gen_rel, g.methods[mn], '%s::_Generator.%s' % (gen_rel, mn),
                           'the dispatch chains disagree on the supported classes: %s handles %s, format_type handles %s -- a type accepted by one pass is dropped by another'
-                          % (mn, sorted(s), sorted(ref)), stmt='dispatch sets differ')
-    for mn, ch in chains.items():
-        for cname_, body in ch:
-            if cname_ == 'ELSE':
-                ok = any(isinstance(s, ast.Raise) for s in body)
-                if not ok and mn == 'generate_definition_inner_process':
-                    # generate() runs the declaration pass first: an unsupported class is rejected there,
-                    # provided that pass raises in its else-branch and handles the same classes
-                    decl_else = [b for c2, b in chains['generate_type_declaration_process'] if c2 == 'ELSE']
-                    ok = bool(decl_else) and any(isinstance(s, ast.Raise) for s in decl_else[0]) and \
-                        sets['generate_definition_inner_process'] == sets['generate_type_declaration_process']
-                ctx.instance(R5, '%s.%s else-branch' % (gen_rel, mn), 'raises' if ok else 'VIOLATION', node=g.methods[mn], file=gen_rel)
+                          % (mn, sorted(s_), sorted(ref)), stmt='dispatch sets differ')
+
+    def else_raises(mn):
+        rest = [e for e in summ[mn] if not e[0] and not e[1]]
+        return bool(rest) and all(e[2] == 'raise' for e in rest), rest
+    for mn, sm in sorted(summ.items()):
+        if sm is None:
+            continue
+        ok, rest = else_raises(mn)
+        if not ok and mn == 'generate_definition_inner_process' and summ.get('generate_type_declaration_process') is not None:
+            # generate() runs the declaration pass first: an unsupported class is rejected there,
+            # provided that pass raises for every other class and handles the same classes
+            ok = else_raises('generate_type_declaration_process')[0] and sets['generate_definition_inner_process'] == sets['generate_type_declaration_process']
+        ctx.instance(R5, '%s.%s else-branch' % (gen_rel, mn), 'raises' if ok else 'VIOLATION', node=g.methods[mn], file=gen_rel)
+        if not ok:
+            how = 'no else'
+            for e in rest:
+                if e[2] != 'raise':
+                    how = ('return %s' % ast.unparse(e[3])) if e[3] is not None else e[2]
+            ctx.violation(R5, gen_rel, g.methods[mn], '%s::_Generator.%s::else' % (gen_rel, mn),
+                          'an unsupported type falls through %s without an error (%s): it is accepted and silently not encoded' % (mn, how), stmt='else does not raise')
+        # every handled class must produce something: not an empty literal, and not a call of a method that returns empty
+        seen_cls = set()
+        for names, user, kind, val, p_ in sm:
+            for cname_ in sorted(names):
+                if cname_ == 'Null' or cname_ in seen_cls:
+                    continue
+                seen_cls.add(cname_)
+                empty = val is not None and cgen.value_is_empty(val)
+                callee_empty = None
+                if val is not None and isinstance(val, ast.Call) and isinstance(val.func, ast.Attribute) and isinstance(val.func.value, ast.Name) and val.func.value.id == 'self':
+                    r = g.find_method(val.func.attr)
+                    if r and cgen.method_returns_empty(r[1]):
+                        callee_empty = r[1]
+                ok = not empty and callee_empty is None
+                ctx.instance(R5, '%s.%s[%s]' % (gen_rel, mn, cname_), 'emits code' if ok else 'VIOLATION', nontrivial=False, node=g.methods[mn], file=gen_rel)
                 if not ok:
-                    ctx.violation(R5, gen_rel, body[0] if body else g.methods[mn], '%s::_Generator.%s::else' % (gen_rel, mn),
-                                  'an unsupported type falls through %s without an error (%s): it is accepted and silently not encoded' % (mn, ast.unparse(body[0]) if body else 'no else'),
-                                  stmt='else does not raise')
-                continue
-            if cname_ == 'Null':
-                continue
-            # the branch must produce something: not an empty literal, and not a call of a method that returns empty
-            empty = cgen.body_is_empty_result(body)
-            callee_empty = None
-            for s in body:
-                for c in ast.walk(s):
-                    if isinstance(c, ast.Call) and isinstance(c.func, ast.Attribute) and isinstance(c.func.value, ast.Name) and c.func.value.id == 'self':
-                        r = g.find_method(c.func.attr)
-                        if r and cgen.method_returns_empty(r[1]):
-                            callee_empty = r[1]
-            ok = not empty and callee_empty is None
-            ctx.instance(R5, '%s.%s[%s]' % (gen_rel, mn, cname_), 'emits code' if ok else 'VIOLATION', nontrivial=False, node=g.methods[mn], file=gen_rel)
-            if not ok:
-                tgt = callee_empty if callee_empty is not None else g.methods[mn]
-                ctx.violation(R5, gen_rel, tgt, '%s::_Generator.%s[%s]' % (gen_rel, mn, cname_),
-                              'a member of class %s is accepted by %s but %s produces nothing: the value is silently left out of the encoding and not decoded '
-                              '(the generator must reject what it cannot translate)' % (cname_, mn, ('%s()' % callee_empty.name) if callee_empty is not None else 'the branch'),
-                              stmt='empty translation of %s' % cname_)
+                    tgt = callee_empty if callee_empty is not None else g.methods[mn]
+                    ctx.violation(R5, gen_rel, tgt, '%s::_Generator.%s[%s]' % (gen_rel, mn, cname_),
+                                  'a member of class %s is accepted by %s but %s produces nothing: the value is silently left out of the encoding and not decoded '
+                                  '(the generator must reject what it cannot translate)' % (cname_, mn, ('%s()' % callee_empty.name) if callee_empty is not None else 'the branch'),
+                                  stmt='empty translation of %s' % cname_)
 
     # ---- R6 range errors
     tl = model.func(UTIL, 'Generator.type_length')
-    first_sel = min([n.lineno for n in walk_no_nested(tl) if isinstance(n, ast.Assign) and 'length' in ast.unparse(n.targets[0])] or [0])
-    raises = [n for n in walk_no_nested(tl) if isinstance(n, ast.Raise)]
-    ok = len(raises) >= 3 and all(r.lineno < first_sel for r in raises)
-    ctx.instance(R6, 'type_length raises for ranges beyond 64 bits before choosing a width', 'ok' if ok else 'VIOLATION', node=tl, file=UTIL)
+    # bounded evaluation of type_length on ranges that no 64-bit C type holds: every one must be rejected
+    beyond = [(-2 ** 63 - 1, 0), (-2 ** 64, -1), (0, 2 ** 64), (5, 2 ** 65), (-1, 2 ** 63), (-2 ** 63 - 1, 2 ** 63), (-5, 2 ** 64)]
+    accepted = [(lo_, hi_, t_) for lo_, hi_ in beyond for t_ in [cgen.c_type_for(model, lo_, hi_)] if t_ not in ('ERROR', 'UNDECIDED')]
+    n_und6 = sum(1 for lo_, hi_ in beyond if cgen.c_type_for(model, lo_, hi_) == 'UNDECIDED')
+    ok = not accepted
+    ctx.instance(R6, 'type_length raises for ranges beyond 64 bits (%d ranges evaluated, %d undecided)' % (len(beyond) - n_und6, n_und6),
+                 ('ok' if n_und6 < len(beyond) else 'undecided') if ok else 'VIOLATION', nontrivial=n_und6 < len(beyond), node=tl, file=UTIL)
     if not ok:
-        ctx.violation(R6, UTIL, tl, Model.qual(tl), 'ranges that do not fit into 64 bits must be rejected before a width is selected', stmt='64-bit check')
+        lo_, hi_, t_ = accepted[0]
+        ctx.violation(R6, UTIL, tl, Model.qual(tl), 'ranges that do not fit into 64 bits must be rejected before a width is selected: INTEGER (%d..%d) is given the C type %s%d_t'
+                      % (lo_, hi_, t_[0], t_[1]), stmt='64-bit check')
     for qual, n_r in (('Generator.format_integer', 2), ('Generator.format_octet_string', 1), ('Generator.format_sequence_of', 1), ('Generator.format_bit_string', 2)):
         f = model.func(UTIL, qual)
         rs = [n for n in walk_no_nested(f) if isinstance(n, ast.Raise) and 'self.error(' in ast.unparse(n)]
